@@ -637,6 +637,88 @@ func c09Restart(n int, b Bounds) *Scenario {
 	}
 }
 
+// c09SendFault: the Send of callback A fails (the connection survives); callback B is issued afterwards;
+// A's context ends before the peer answers B. B still gets its own reply, and its id differs from A's
+// as long as A is registered.
+func c09SendFault(b Bounds) *Scenario {
+	return &Scenario{
+		Name:   "callback A's Send fails, callback B issued, A's context ends, then the reply to B",
+		Params: map[string]any{"history": []string{"Callback A (Send fails)", "Callback B", "A's context ends", "reply to B"}},
+		Bounds: b,
+		New: func() *Instance {
+			body := func() {
+				lib, peer, pipe := NewPipe(PipeOpts{Name: "srv", CloseUnblocksRecv: true})
+				srv := jrpc2.NewServer(anyAssigner{func(context.Context, *jrpc2.Request) (any, error) { return 1, nil }}, &jrpc2.ServerOptions{AllowPush: true})
+				srv.Start(lib)
+				ctxA, cancelA := context.WithCancel(context.Background())
+				pipe.FailSend = errFault
+				_, errA := srv.Callback(ctxA, "cbA", nil)
+				vs.Note("ret", "Callback", "A", errStr(errA))
+				var j Join
+				j.Go("B", func() {
+					rsp, err := srv.Callback(context.Background(), "cbB", nil)
+					vs.Yield("ret")
+					if err != nil {
+						vs.Note("ret", "Callback", "B", "err", err.Error())
+					} else {
+						vs.Note("ret", "Callback", "B", "ok", rsp.ResultString())
+					}
+				})
+				idB := ""
+				for idB == "" {
+					rec, ok := peer.Recv()
+					if !ok {
+						break
+					}
+					ms, _, _ := parseRecord(rec)
+					for _, m := range ms {
+						if m.Str("method") == `"cbB"` {
+							idB = m.ID()
+						}
+					}
+				}
+				vs.Note("id-B", idB)
+				cancelA()
+				vs.AwaitQuiescence()
+				peer.Send([]byte(fmt.Sprintf(`{"jsonrpc":"2.0","id":%s,"result":"r:B"}`, idB)))
+				vs.AwaitQuiescence()
+				peer.Close()
+				j.Wait()
+				srv.WaitStatus()
+			}
+			check := func(x *vs.Exec) []Viol {
+				v := genericRules(x, nil)
+				if x.Outcome != "ok" {
+					return v
+				}
+				Hit("C09.R5")
+				i := findEv(x, 0, "ret", "Callback", "B")
+				if i < 0 {
+					return append(v, Viol{"C09.R4", "callback B did not return"})
+				}
+				if e := x.Log[i]; e.Arg(2) != "ok" || e.Arg(3) != `"r:B"` {
+					v = append(v, Viol{"C09.R5", fmt.Sprintf("callback B returned %s %s although the peer replied \"r:B\" to its id and only A's context had ended", e.Arg(2), e.Arg(3))})
+				}
+				// ids: A's request was handed to Send (and failed) with some id; B must not share it while A is registered
+				idA := ""
+				for _, o := range outEvents(x, "srv") {
+					ms, _, _ := parseRecord([]byte(o.Raw))
+					for _, m := range ms {
+						if m.Str("method") == `"cbA"` {
+							idA = m.ID()
+						}
+					}
+				}
+				if k := findEv(x, 0, "id-B"); k >= 0 && idA != "" && x.Log[k].Arg(0) == idA {
+					v = append(v, Viol{"C09.R3", "callback B was given the id " + idA + " of callback A, which is still outstanding (its context had not ended)"})
+				}
+				return v
+			}
+			return &Instance{Body: body, Check: check}
+		},
+	}
+}
+
 func c09Scenarios(tier string) []*Scenario {
 	var out []*Scenario
 	add := func(p c09P, b Bounds) { out = append(out, c09Scenario(p, b)) }
@@ -664,7 +746,7 @@ func c09Scenarios(tier string) []*Scenario {
 	add(c09P{Push: true, N: 0, Script: "none", NoteWaits: true, Stop: true}, b2)
 	add(c09P{Push: true, N: 0, Script: "none", HandlerCB: true, Stop: true}, b2)
 	add(c09P{Push: true, N: 1, Script: "inorder", Notify: true}, b2)
-	out = append(out, c09Reissue(false, b1), c09Restart(1, b2))
+	out = append(out, c09Reissue(false, b1), c09Restart(1, b2), c09SendFault(b2))
 	add(c09P{Push: true, N: 0, Script: "none", Notify: true, AfterStop: true}, b1)
 	add(c09P{Push: false, N: 1, Script: "none", Notify: true, AfterStop: true}, b1)
 	if !q {
